@@ -7,14 +7,15 @@ FLOWS = ["c31_batch", "c31_snapshot", "c31_state", "c31_two"]
 class C31(vlib.Spec):
     model_vo = ["theories/HydroB/ModelSlice.vo", "theories/HydroB/SimSlice.vo"]
     props_vo = "theories/Props/C31.vo"
-    theorems = ["C31_batches_partition_partial", "C31_production_batches", "C31_snapshots_monotone_partial",
-                "C31_hooks_same_slice_partial", "C31_state_carries", "C31_sim_batches_partition",
-                "C31_sim_batches_conserved_partial", "C31_sim_snapshots_monotone_partial", "C31_sim_hooks_same_tick",
+    theorems = ["C31_batches_partition", "C31_production_batches", "C31_model_snapshots_monotone",
+                "C31_model_hooks_same_slice", "C31_state_carries", "C31_sim_batches_partition",
+                "C31_sim_batches_conserved", "C31_sim_singleton_snapshots_monotone", "C31_sim_keyed_batches_order",
+                "C31_sim_snapshots_monotone", "C31_sim_keyed_snapshots_monotone", "C31_sim_hooks_same_tick",
                 "C31_sim_slice_columns"]
     crate, group, binary = "h_hydro_b", "hydro", "h_hydro_b"
     imports = ("From Coq Require Import List NArith.\nFrom HV Require Import Sim.Model HydroB.ModelSlice HydroB.SimSlice.\n"
                "Import ListNotations.")
-    level = "other"
+    level = "proof"
     explanation = (
         "Coq theorems for ALL arrival/decision scripts, over (1) engine Sim's model of the REAL simulator hooks and "
         "run_hooks: TotalOrder batches ++ queue = input as lists; for every batch hook kind (TotalOrder, NoOrder, keyed) "
@@ -25,8 +26,9 @@ class C31(vlib.Spec):
         "batches/snapshots/state compared exactly; (b) slices of 1-4 hooks of random kinds on the REAL simulator hook "
         "objects under the real run_hooks (harness h_sim, scripted bolero driver) over multi-round random arrival / "
         "decision scripts, compared round by round with Sim.Model.run_hooks, and the executable clauses evaluated on the "
-        "implementation's releases. Still `other`: provable parts are missing (per-key order of keyed TotalOrder batches "
-        "over a trajectory, KeyedSingleton/Passthrough snapshot hooks) and flow.sim().exhaustive itself is not executed.")
+        "implementation's releases; all seven hook kinds (incl. PassthroughSingletonHook with the repaired "
+        "re-release and KeyedSingletonHook) are generated. Residual trust: SimBuilder's wiring of hooks into tick "
+        "graphs is read from source; flow.sim().exhaustive itself is not executed.")
     trusted_base = ["coqc 8.16.1 kernel (vm_compute for case evaluation only)",
                     "hand-written Gallina model coq/theories/HydroB/ModelSlice.v",
                     "harness/h_hydro_b (production embedded code generation + tick driver), tools/hydrob.py"]
